@@ -55,7 +55,8 @@ template <typename CharT, typename SizeT>
 {
     auto* ptr          = dest + strlen<CharT, SizeT>(dest);
     SizeT localCounter = 0;
-    while (*src != CharT(0) && localCounter != count) {
+    // test the count first: a source array of exactly count characters has no terminator
+    while (localCounter != count && *src != CharT(0)) {
         *ptr++ = *src++;
         ++localCounter;
     }
